@@ -170,8 +170,16 @@ def r_tree(t) -> str:
     if isinstance(t, D.MultiA):
         return f"ma({t.threshold};{1 if t.sort else 0};{r_keys(t.keys)})"
     if isinstance(t, Miniscript):
-        raise Unsupported
+        return r_ms(t)
     return f"pk({r_key(t)})"
+
+
+def r_ms(node) -> str:
+    """a miniscript whose keys are all raw public keys is in C15's model: rendered as its own text."""
+    for k in node.key_expressions:
+        if k.participants or k.pub_key is None or k.origin is not None:
+            raise Unsupported
+    return f"ms({T(str(node))})"
 
 
 def r_desc(d) -> str:  # noqa: PLR0911
@@ -197,6 +205,8 @@ def r_desc(d) -> str:  # noqa: PLR0911
         return f"addr({T(d.addr)})"
     if isinstance(d, D.RawDescriptor):
         return f"raw({hx(d.script)})"
+    if isinstance(d, D.MiniscriptDescriptor):
+        return r_ms(d.node)
     raise Unsupported
 
 
@@ -1264,7 +1274,10 @@ def run(ctx):  # noqa: PLR0912, PLR0915
                 continue
             lines.append(f"parse {atoms_for(m)} {T(m)}")
     lines += position_lines(ctx)
+    ms_parse, ms_spk = miniscript_lines(ctx)
+    lines += ms_parse
     stream(ctx, "parse", lines)
+    stream(ctx, "desc.spk.miniscript", ms_spk)
     lines = []
     for text in texts:
         i = rng.choice([0, 0, 1, 5, H - 1, H])
@@ -1686,6 +1699,47 @@ def wallet_batch(ctx):
                        witness={"oracle": "wallet.key", "witness": {"sec": k.sec.hex(), "type": stype, "network": net}})
             ctx.count("wallet", "key")
             _ctx_line(wlines, f"w.key {stype} {hx(k.sec)}", lambda addr=addr: ScriptPubKey.from_address(addr).script)
+
+
+_MS_WSH = [
+    "and_v(v:pk(@0),older(144))", "or_d(pk(@0),and_v(v:pkh(@1),after(500000)))", "thresh(2,pk(@0),s:pk(@1),s:pk(@2))",
+    "andor(pk(@0),older(10),pk(@1))", "and_v(v:multi(1,@0,@1),sha256(#))", "or_i(and_v(v:pk(@0),after(7)),pk(@1))",
+    "and_v(v:pk(@0),pk(@1))", "c:pk_k(@0)", "and_b(pk(@0),s:pk(@1))", "t:or_c(pk(@0),v:pk(@1))",
+    # refused by _assert_sane / typing
+    "older(144)", "or_b(pk(@0),pk(@1))", "and_v(v:pk(@0),0)", "and_v(v:pk(@0),pk(@0))", "thresh(1,pk(@0))",
+]
+_MS_TAP = [
+    "and_v(v:pk(%0),older(10))", "or_d(pk(%0),and_v(v:pk(%1),after(100)))", "and_v(v:multi_a(1,%0,%1),older(5))",
+    "c:pk_k(%0)", "older(5)", "and_v(v:pk(%0),pk(%0))",
+]
+
+
+def miniscript_lines(ctx):
+    """miniscripts over raw keys (C15's model inside this one): parse + str, derivation, mutations."""
+    rng = ctx.rng
+    secs = []
+    for _ in range(3):
+        P = mult(1 + rng.randrange(secp256k1.n - 1))
+        secs.append(bytes([2 + (P[1] & 1)]) + P[0].to_bytes(32, "big"))
+    digest = common.rand_bytes(rng, 32).hex()
+    parse_lines, spk_lines = [], []
+
+    def fill(t):
+        for i, k in enumerate(secs):
+            t = t.replace(f"@{i}", k.hex()).replace(f"%{i}", k[1:].hex())
+        return t.replace("#", digest)
+    texts = [f"wsh({fill(m)})" for m in _MS_WSH] + [f"sh(wsh({fill(_MS_WSH[0])}))", fill(_MS_WSH[0]), f"sh({fill(_MS_WSH[0])})"]
+    x = secs[0][1:].hex()
+    texts += [f"tr({x},{fill(m)})" for m in _MS_TAP] + [f"tr({x},{{{fill(_MS_TAP[0])},pk({secs[1][1:].hex()})}})"]
+    for t in texts:
+        at = atoms_for(t)
+        parse_lines.append(f"parse {at} {T(t)}")
+        spk_lines.append(f"desc.spk {at} _ {T(t)} 0 mainnet")
+        for _ in range(ctx.n(4, 20)):
+            m = mutate(rng, t)
+            parse_lines.append(f"parse {atoms_for(m)} {T(m)}")
+    ctx.count("parse", "miniscript-raw-keys", len(texts))
+    return parse_lines, spk_lines
 
 
 _MS = [
